@@ -195,6 +195,41 @@ Check C04_first_non_equal_field :
        spec_pcmp fpcmp it re a b = Some Datatypes.Eq).
 Print Assumptions C04_first_non_equal_field.
 
+(* The rest of the property's sentence in propositional form: operands of DIFFERENT variants are ordered by the numeric
+   value of their discriminants (cmp always; partial_cmp when neither is incomparable), and within one variant cmp is the
+   result of the first non-skipped field pair that is not Equal, Equal when all are. *)
+Theorem C04_order_sentence :
+  forall (fval : Type) (fpcmp : fval -> fval -> option comparison) (fcmp : fval -> fval -> comparison)
+         (it : item) (re : rust_enum) (a b : value fval),
+    (v_idx a <> v_idx b ->
+       spec_cmp fcmp it re a b = Z.compare (Spec.disc_of re a) (Spec.disc_of re b) /\
+       (incomparable_value it a = false -> incomparable_value it b = false ->
+        spec_pcmp fpcmp it re a b = Some (Z.compare (Spec.disc_of re a) (Spec.disc_of re b)))) /\
+    (forall d, v_idx a = v_idx b -> variant_of it a = Some d ->
+       (forall px py x y xs ys,
+          project d Ord a = px ++ x :: xs -> project d Ord b = py ++ y :: ys ->
+          Forall2 (fun u v => fcmp u v = Datatypes.Eq) px py -> fcmp x y <> Datatypes.Eq ->
+          spec_cmp fcmp it re a b = fcmp x y) /\
+       (Forall2 (fun u v => fcmp u v = Datatypes.Eq) (project d Ord a) (project d Ord b) ->
+          spec_cmp fcmp it re a b = Datatypes.Eq)).
+Proof. exact spec_cmp_order. Qed.
+
+Check C04_order_sentence :
+  forall (fval : Type) (fpcmp : fval -> fval -> option comparison) (fcmp : fval -> fval -> comparison)
+         (it : item) (re : rust_enum) (a b : value fval),
+    (v_idx a <> v_idx b ->
+       spec_cmp fcmp it re a b = Z.compare (Spec.disc_of re a) (Spec.disc_of re b) /\
+       (incomparable_value it a = false -> incomparable_value it b = false ->
+        spec_pcmp fpcmp it re a b = Some (Z.compare (Spec.disc_of re a) (Spec.disc_of re b)))) /\
+    (forall d, v_idx a = v_idx b -> variant_of it a = Some d ->
+       (forall px py x y xs ys,
+          project d Ord a = px ++ x :: xs -> project d Ord b = py ++ y :: ys ->
+          Forall2 (fun u v => fcmp u v = Datatypes.Eq) px py -> fcmp x y <> Datatypes.Eq ->
+          spec_cmp fcmp it re a b = fcmp x y) /\
+       (Forall2 (fun u v => fcmp u v = Datatypes.Eq) (project d Ord a) (project d Ord b) ->
+          spec_cmp fcmp it re a b = Datatypes.Eq)).
+Print Assumptions C04_order_sentence.
+
 Theorem C04_F6_refuted :
   exists i w o, from_input cfg_default ex_f6 = Ok i /\ In w (in_dws i) /\
     valid_rust_enum ex_f6 /\ uncastable_fieldless ex_f6 = true /\
